@@ -26,7 +26,7 @@ ASSUMPTIONS = [
 ]
 BUDGET = {
     "quick": {"examples": 300, "wall_s": 100, "shards": 4},
-    "thorough": {"examples": 2500, "wall_s": 1200, "shards": 16},
+    "thorough": {"examples": 8000, "wall_s": 1500, "shards": 16},
 }
 
 
